@@ -242,9 +242,10 @@ pub fn c19_precreate_crash(part: (u64, u64), res: &mut WorkerResult) -> Vec<(Str
         return out;
     }
     // mkdir(root), mkdir(staging), mkdir(cas), open(LOCK) come first; then 65,792 mkdirs; then the settings file and the rest
-    let mut cuts: Vec<u64> = (1..=8).collect();
-    cuts.extend([300, 20_000, 65_000, 65_700]);
-    cuts.extend((65_780..=total).collect::<Vec<u64>>());
+    // (create_dir_all makes 66,048 mkdir calls for the tree: 65,536 leaves, 256 parents, 256 first attempts answered ENOENT)
+    let mut cuts: Vec<u64> = (1..=6).collect();
+    cuts.extend([300, 20_000, 65_000, total - 40, total - 25]);
+    cuts.extend((total - 16..=total).collect::<Vec<u64>>());
     cuts.sort();
     cuts.dedup();
     for (ci, k) in cuts.into_iter().enumerate() {
@@ -677,7 +678,7 @@ pub fn run(tier: &str, slice: (u64, u64), _seed: u64, prop: &str) -> WorkerResul
             }
         }
         if slice.0 == 0 {
-            res.completed.push(format!("C19: all 25 pairs (N_create, N_open) over {{1,2,3,4,10000}} x {} histories (incl. un-replayed WAL tails); stored versions x 3 N pairs x histories; pre-created vs lazy tree x reopen flag (4 combinations); first-time initialisation with a pre-created tree really killed before ~35 selected calls (first/last/middle mkdirs, every call after the loop); two first opens racing with different num_ops_per_wal", hs.len()));
+            res.completed.push(format!("C19: all 25 pairs (N_create, N_open) over {{1,2,3,4,10000}} x {} histories (incl. un-replayed WAL tails); stored versions x 3 N pairs x histories; pre-created vs lazy tree x reopen flag (4 combinations); first-time initialisation with a pre-created tree really killed before ~28 selected calls (first/last/middle mkdirs, every call after the loop); two first opens racing with different num_ops_per_wal", hs.len()));
         }
     } else {
         for (label, n, h) in stores() {
